@@ -109,7 +109,7 @@ impl<R: Read + Seek> ReadBox<&mut R> for Avc1Box {
             }
             let header = BoxHeader::read(reader)?;
             let BoxHeader { name, size: s } = header;
-            if s > size {
+            if s > size || s < HEADER_SIZE {
                 return Err(Error::InvalidData(
                     "avc1 box contains a box with a larger size than it",
                 ));
